@@ -79,3 +79,19 @@ Definition case_signature (c : obs_case) : N * N * N * N :=
                                                | Some st => Nat.ltb 1 (length (st_owners st)) | None => false end)
                                      (oc_universe c))) in
   (nu, nd, nn, sh).
+
+(* Controller-level stream: after each controller operation (at quiescence) the kernel shadow map must
+   equal the table of the LIVE cache as dumped from the controller. *)
+Definition check_live (live : list (N * cache_entry)) (shadow : list (N * N)) (univ : list N) : bool :=
+  let h := map (fun oe => CInsert (fst oe) (snd oe)) live in
+  forallb (fun ip => optN_eqb (option_map snd (find (fun kv => fst kv =? ip) shadow)) (cache_table_entry h ip)) univ
+  && forallb (fun kv => existsb (N.eqb (fst kv)) univ) shadow.
+
+Definition check_ctl_case (c : list (list (N * cache_entry) * list (N * N)) * list N) : list N :=
+  let fix go (steps : list (list (N * cache_entry) * list (N * N))) (n : N) : list N :=
+      match steps with
+      | [] => []
+      | (live, shadow) :: rest =>
+          (if check_live live shadow (snd c) then [] else [n]) ++ go rest (n + 1)
+      end in
+  go (fst c) 0.
